@@ -119,7 +119,7 @@ CHECKS = {
     ),
     "C01": dict(
         level="model_checking",
-        text=("BoxLayouts.tla holds the field layout of 151 box shapes - all 130 registered four-character codes - (from ISO/IEC 14496-12/-15/-30, 23001-7, ETSI TS 102 366, not from the Go code) in a "
+        text=("BoxLayouts.tla holds the field layout of 157 box shapes - all 130 registered four-character codes - (from ISO/IEC 14496-12/-15/-30, 23001-7, ETSI TS 102 366, not from the Go code) in a "
               "layout DSL with an interpreter that serialises an instance to bytes, the canonical re-encoding and a bit-level don't-care mask. TLC "
               "enumerates every instance (version x every subset of the defined flags x counts (0 = empty container) x header form x nesting "
               "{alone, only child, first child followed by a sibling}, one field at a time at boundary values, distinct fillers elsewhere; every "
